@@ -457,9 +457,11 @@ package node
 // handed out is cut at the first key of another table: every key kept so far is in the scanned table (a table whose
 // name merely STARTS with the scanned name is another table).
 //@ spec keyInTable(k []byte, t []byte) bool = firstSep(k, len(t)) && (forall i int :: 0 <= i && i < len(t) ==> k[i] == t[i])
+// a page that was cut at the table boundary ends the iteration: the cursor handed back is empty
 //@ func (nd *KVNode) scanCommand(cmd redcon.Command) (interface{}, error)
 //@   requires nd != nil && nd.store != nil && len(cmd.Args) >= 1
 //@   modifies *
+//@   callassert GetNamespaceAndPartition len(ay) < length ==> len(nextCursor) == 0
 //@ loop 1
 //@   invariant forall j int :: 0 <= j && j < iter ==> keyInTable(ay[j], table)
 // ADVSCAN / ADVREVSCAN: the same cut.  At the point where the reply is built (the GetNamespaceAndPartition call) the
@@ -469,6 +471,7 @@ package node
 //@   requires nd != nil && nd.store != nil && len(cmd.Args) >= 1
 //@   modifies *
 //@   callassert GetNamespaceAndPartition len(ay) > 0 ==> (keyInTable(ay[len(ay)-1], table) || !(exists idx int :: firstSep(ay[len(ay)-1], idx)))
+//@   callassert GetNamespaceAndPartition len(ay) < length ==> len(nextCursor) == 0
 //@ loop 1
 //@   invariant iter > 0 ==> keyInTable(ay[iter-1], table)
 
